@@ -1020,6 +1020,14 @@ func (x *Exec) indexAddr(st *State, xs, idx Value, resT types.Type, pos token.Po
 	case *types.Slice:
 		base, off, ln, _ := sliceParts(xs)
 		x.boundsObl(st, "index", x.inRange(i, ln), pos, "index in range")
+		if mathInts && x.specMode == 0 && !off.IsLit() && i.Op != "const" && i.Op != "var" && !i.IsLit() && !i.Bound {
+			// Name a compound index: the element is then addressed as off + k with k atomic, the
+			// shape quantified contracts use in their patterns (solvers flatten nested sums, and
+			// a flattened sum no longer matches).
+			k := x.C.Fresh("ix", IdxSort)
+			x.assume(st, x.C.Eq(k, i))
+			i = k
+		}
 		return Value{T: resT, L: []*Term{base}, P: &PtrInfo{Kind: PElem, Root: u.Elem(), Idx: x.C.BVBin("bvadd", off, i)}}
 	case *types.Pointer:
 		at := u.Elem().Underlying().(*types.Array)
